@@ -18,8 +18,9 @@ obligations, generated from the method's current source on every run (all inputs
                                                execution package (so it is constant for the life of the memo)
 
 What is assumed (reported): objects used as key components are compared the way the memo needs (a type's name identifies it within one
-schema; AST nodes and Field objects hash by identity); the key-covers obligation is syntactic - a parameter that reaches the computation
-only through an attribute of another key component is covered by that component.
+schema; AST nodes and Field objects hash by identity); the key-covers obligation is syntactic - a read value counts as determined by the key when it
+is a component of the key (v, v.attr, tuple(v)) or is computed before the lookup from such components only; a key that merely *depends* on v
+(key = f(v, w)) does not determine v.
 """
 import ast
 import glob
@@ -87,17 +88,32 @@ def obligations():
                             assigns.setdefault(t.id, []).append(n.value)
             aliases = {k for k, v in assigns.items() if len(v) == 1 and ast.unparse(v[0]) == cache_text} | {cache_text}
 
-            def closure(e, seen=()):
-                """parameters and locals the expression depends on, through single-assignment locals"""
-                out_ = set()
-                for nm in _names(e):
-                    out_.add(nm)
-                    if nm in assigns and nm not in seen:
-                        for v in assigns[nm]:
-                            out_ |= closure(v, seen + (nm,))
-                return out_
-            covered = closure(key)
+            def components(e, seen=()):
+                """the key as a tuple of components: tuples and single-assignment locals that merely name / group other values are expanded"""
+                if isinstance(e, ast.Tuple):
+                    return [c for x in e.elts for c in components(x, seen)]
+                if isinstance(e, ast.Name) and e.id in assigns and len(assigns[e.id]) == 1 and e.id not in seen and isinstance(assigns[e.id][0], (ast.Tuple, ast.Name)):
+                    return [e] + components(assigns[e.id][0], seen + (e.id,))
+                return [e]
+
+            def root(e):
+                """the variable a component is (an injective view of): v, v.attr..., tuple(v) / frozenset(v)"""
+                while isinstance(e, ast.Attribute):
+                    e = e.value
+                if isinstance(e, ast.Call) and isinstance(e.func, ast.Name) and e.func.id in ("tuple", "frozenset") and len(e.args) == 1 and not e.keywords:
+                    return root(e.args[0])
+                return e.id if isinstance(e, ast.Name) else None
+            comp_roots = {root(c) for c in components(key)} - {None}
             key_text = ast.unparse(key)
+
+            def determined(v, seen=()):
+                """v is a component of the key, or a single-assignment local computed from determined values only"""
+                if v in comp_roots:
+                    return True
+                if v in assigns and len(assigns[v]) == 1 and v not in seen:
+                    deps = _names(assigns[v][0]) & (params | set(assigns))
+                    return all(determined(d, seen + (v,)) for d in deps)
+                return False
             # what the miss branch reads
             local_in_handler = set()
             for n in ast.walk(ast.Module(body=handler.body, type_ignores=[])):
@@ -109,12 +125,12 @@ def obligations():
                     reads.add(n.id)
                 if isinstance(n, ast.Attribute) and isinstance(n.value, ast.Name) and n.value.id == "self" and isinstance(n.ctx, ast.Load):
                     self_attrs.add(n.attr)
-            for v in sorted(reads - aliases - ({key_text} if key_text in assigns else set())):
-                deps = closure(ast.Name(id=v, ctx=ast.Load())) & params if v in assigns else {v}
-                missing = sorted(d for d in (deps or {v}) if d not in covered)
-                out.append({"id": "memo:%s:key-covers:%s" % (q, v), "holds": not missing,
-                            "detail": "the miss branch of %s reads %s, which the memo key `%s` does not determine (missing: %s): a cached value computed for "
-                                      "one %s is returned for another" % (q, v, key_text, ", ".join(missing), v)})
+            for v in sorted(reads - aliases):
+                if isinstance(key, ast.Name) and v == key.id:
+                    continue
+                out.append({"id": "memo:%s:key-covers:%s" % (q, v), "holds": determined(v),
+                            "detail": "the miss branch of %s reads %s, which is not a component of the memo key `%s` (nor computed from its components alone): a cached "
+                                      "value computed for one %s is returned for another" % (q, v, key_text, v)})
             stores = []
             for n in ast.walk(ast.Module(body=handler.body, type_ignores=[])):
                 if isinstance(n, ast.Assign):
@@ -142,8 +158,12 @@ def obligations():
     return out, found
 
 
-def run(run):
+def run(run, only=None):
+    """only: qualified method names whose obligations are generated for this property (None: all)"""
     obs, found = obligations()
+    if only is not None:
+        obs = [o for o in obs if o["id"].split(":")[1] in only]
+        found = len({o["id"].split(":")[1] for o in obs})
     if found == 0:
         run.assume("memocheck: no method of the execution context has the memo shape any more (nothing to prove; the bounded comparison decides)")
     cov = run.cov
